@@ -140,7 +140,10 @@ func init() {
 			c.guard("RW.TMPL.CONSUMER", r.ruleTmplConsumer)
 			c.guard("RW.FILEPASSES", r.ruleFilePasses)
 			// a delegation in for-post position must reach the lowering (not be re-emitted verbatim)
-			c.guard("RW.FIELDCOV", func() { r.ruleCoverKinds(map[string]bool{"ForStmt": true}) })
+			c.guard("RW.FIELDCOV", r.ruleCover)
+			// "at any statement position": a delegation inside an if/else-if chain or a switch clause is only
+			// reached (and only for the right inputs) if the lowering keeps every branch, clause and statement
+			c.guard("RW.TMPL.IF", r.ruleTmplStmts)
 			s := newSeqRT(c)
 			// delegation lowers to a post-less loop: only those runtime shapes matter here
 			c.guard("SEQ.FOR", func() { s.ruleForOnly(func(fc forCase) bool { return fc.postNil }) })
@@ -150,7 +153,7 @@ func init() {
 				switch o.Rule {
 				case "RW.FILEPASSES":
 					return strings.HasPrefix(o.Construct, "order of passes")
-				case "RW.DISPATCH", "RW.DEEPVISIT", "SEQ.LAZY", "RW.NOLOSS":
+				case "RW.DISPATCH", "RW.DEEPVISIT", "SEQ.LAZY":
 					return false
 				case "RW.FIELDCOV":
 					return strings.Contains(o.Construct, "post=true")
@@ -193,6 +196,7 @@ func init() {
 			r := newRwRT(c)
 			s := newSeqRT(c)
 			c.guard("OPT.WHITELIST", func() { r.ruleOptWhitelist(s) })
+			c.guard("OPT.RULES", r.ruleOptRules)
 			c.guard("OPT.ETA", r.ruleOptEta)
 			c.guard("OPT.ORDER", r.ruleOptOrder)
 			c.guard("RW.TMPL.COMBINE", r.ruleTmplCombine)
@@ -219,6 +223,7 @@ func init() {
 			r := newRwRT(c)
 			c.guard("RW.MUTGUARD", r.ruleMutGuard)
 			c.guard("OPT.ETA", r.ruleOptEta)
+			c.guard("OPT.RULES", r.ruleOptRules)
 			c.guard("RW.TMPL.HOIST", r.rulePass0)
 			c.guard("RW.BRANCHCTX", r.ruleBranchCtx)
 			c.guard("RW.TMPL.ITERTYPE", r.ruleIterType)
@@ -263,6 +268,7 @@ func init() {
 			c.guard("RW.TMPL.COMBINE", r.ruleTmplCombine)
 			c.guard("RW.TMPL.FOR", r.ruleTmplFor)
 			c.guard("OPT.WHITELIST", func() { r.ruleOptWhitelist(s) })
+			c.guard("OPT.RULES", r.ruleOptRules)
 		},
 	})
 }
